@@ -269,6 +269,7 @@ type scen struct {
 	B    gma    `json:"b"`
 	C    gma    `json:"c"`
 	Dec  string `json:"dec,omitempty"` // hex of the CBOR to decode
+	Dirty []gma  `json:"dirty,omitempty"` // "dec"/"alg": values held by receivers that are decoded INTO (non-fresh destinations)
 	Xs    []gma  `json:"xs,omitempty"`    // "seq": operand values, each built ONCE and shared by all programs
 	Progs []prog `json:"progs,omitempty"` // "seq": accumulator programs
 	Note string `json:"note,omitempty"`
@@ -504,6 +505,14 @@ func (e *env) runEnc(a gma, s scen) {
 		e.viol("decode-of-encoding-fails", fmt.Sprintf("decode of %x: %v", enc1, err), s)
 		return
 	}
+	if it, _, perr := vh.ParseItem(enc1); perr == nil {
+		s2 := s
+		s2.Dec = vh.Hex(enc1)
+		if len(s2.Dirty) == 0 {
+			s2.Dirty = []gma{s.B, s.C, s.A}
+		}
+		e.checkDirty(enc1, it, nil, &d, s2)
+	}
 	dg := extract(numBig, &d)
 	if eq, p := cmpImpl(dg, a); p || !eq || !dg.flat().eq(a.flat()) {
 		e.viol("decode-encode-not-equal", fmt.Sprintf("decode(encode(%s)) = %s", a.canon(), dg.canon()), s)
@@ -533,6 +542,84 @@ func (e *env) runEnc(a gma, s scen) {
 	}
 }
 
+// dirtyReceivers builds destinations that already hold data, one per way a
+// MultiAsset comes to hold data: (a) decoded earlier from another encoding,
+// (b) NewMultiAsset + Add, (c) the accumulator of an Add sequence over all of ds,
+// (d) NewMultiAsset over a literal map.
+func dirtyReceivers(ds []gma) (rs []*common.MultiAsset[*big.Int], how []string) {
+	for i, d := range ds {
+		switch i % 3 {
+		case 0:
+			var m common.MultiAsset[*big.Int]
+			if enc, err := cbor.Encode(build(numBig, d)); err == nil && m.UnmarshalCBOR(enc) == nil {
+				rs, how = append(rs, &m), append(how, "previously decoded from "+d.canon())
+			}
+		case 1:
+			m := common.NewMultiAsset[*big.Int](nil)
+			if p, _ := vh.Recover(func() { m.Add(build(numBig, d)) }); !p {
+				rs, how = append(rs, &m), append(how, "NewMultiAsset(nil)+Add "+d.canon())
+			}
+		default:
+			rs, how = append(rs, build(numBig, d)), append(how, "NewMultiAsset "+d.canon())
+		}
+	}
+	if len(ds) >= 2 {
+		m := common.NewMultiAsset[*big.Int](nil)
+		if p, _ := vh.Recover(func() {
+			for _, d := range ds {
+				m.Add(build(numBig, d))
+			}
+		}); !p {
+			rs, how = append(rs, &m), append(how, "accumulator of an Add sequence over all dirty values")
+		}
+	}
+	return
+}
+
+// checkDirty: UnmarshalCBOR is a function of the bytes alone.  Decoding raw
+// into receivers that already hold data must give exactly what decoding into a
+// fresh value gave (error status, data incl. nil-ness, duplicate flag,
+// re-encoding) - and therefore what the Coq model says for these bytes: each
+// dirty result is also emitted as a CDec case.
+func (e *env) checkDirty(raw []byte, it *vh.Item, freshErr error, fresh *common.MultiAsset[*big.Int], s scen) {
+	rs, how := dirtyReceivers(s.Dirty)
+	var fg gma
+	var fenc []byte
+	var fdup bool
+	if freshErr == nil {
+		fg, fdup = extract(numBig, fresh), fresh.CheckForDuplicateKeys() != nil
+		fenc, _ = cbor.Encode(fresh)
+	}
+	for i, m := range rs {
+		var derr error
+		if p, pv := vh.Recover(func() { derr = m.UnmarshalCBOR(raw) }); p {
+			e.viol("decode-panics", fmt.Sprintf("UnmarshalCBOR into a receiver (%s) panicked on %x: %v", how[i], raw, pv), s)
+			continue
+		}
+		e.c.Res.Count(fmt.Sprintf("decdirty|%s|%d|%s", s.Dec, i, how[i]), derr == nil, "dec-dirty-receiver")
+		if (derr == nil) != (freshErr == nil) {
+			e.viol("decode-dirty-receiver-differs", fmt.Sprintf("decoding %x: fresh receiver error=%v, receiver %s error=%v", raw, freshErr, how[i], derr), s)
+			continue
+		}
+		if derr != nil {
+			continue
+		}
+		dg, dup := extract(numBig, m), m.CheckForDuplicateKeys() != nil
+		if it != nil {
+			e.cf.Add(fmt.Sprintf("CDec %s (Some (%s, %s))", it.Coq(), dg.coq(), vh.Bool(dup)), s)
+		}
+		enc, _ := cbor.Encode(m)
+		eq := false
+		vh.Recover(func() { eq = m.Compare(fresh) && fresh.Compare(m) })
+		if !eq || dg.canon() != fg.canon() || dg.Nil != fg.Nil || dup != fdup || !bytes.Equal(enc, fenc) {
+			e.viol("decode-dirty-receiver-differs", fmt.Sprintf("decoding %x into a fresh value gives %s (re-encodes %x); into a receiver %s it gives %s (re-encodes %x)", raw, fg.canon(), fenc, how[i], dg.canon(), enc), s)
+		}
+		if dg.hasZero() {
+			e.viol("decode-keeps-zero-entry", fmt.Sprintf("decode(%x) into a receiver %s = %s keeps a zero quantity or an empty policy", raw, how[i], dg.canon()), s)
+		}
+	}
+}
+
 // decode scenario: s.Dec is CBOR inside (or deliberately outside) the modelled fragment
 func (e *env) runDec(s scen) {
 	c := e.c
@@ -549,6 +636,7 @@ func (e *env) runDec(s scen) {
 		return
 	}
 	c.Res.Count("dec|"+s.Dec, derr == nil, "dec-"+s.Note)
+	e.checkDirty(raw, it, derr, &d, s)
 	if derr != nil {
 		e.cf.Add(fmt.Sprintf("CDec %s None", it.Coq()), s)
 		return
@@ -901,6 +989,35 @@ func genDec(r *vh.Rng, g gma) (string, string) {
 	return vh.Hex(it.Enc()), note
 }
 
+// genDirty: what the destination of a decode already holds, relative to the
+// value g being decoded: a superset (g plus a policy g lacks), an overlapping
+// variant, a disjoint value (random policy ids), the empty map, a random one.
+func genDirty(r *vh.Rng, g gma) []gma {
+	nz := func(x gma) gma { // make every quantity non-zero so that stale entries are visible
+		for i := range x.Pols {
+			for j := range x.Pols[i].As {
+				if x.Pols[i].As[j].Qty == "0" {
+					x.Pols[i].As[j].Qty = "9"
+				}
+			}
+		}
+		return x
+	}
+	super := gma{Pols: []gpol{}}
+	for _, p := range g.Pols {
+		super.Pols = append(super.Pols, gpol{Pol: p.Pol, As: append([]gent{}, p.As...)})
+	}
+	super.Pols = append(super.Pols, gpol{Pol: vh.Hex(r.Bytes(28)), As: []gent{{namePool[r.Intn(len(namePool))], "7"}}})
+	if len(super.Pols) > 1 && r.Bool() { // and an extra asset inside a policy g has
+		super.Pols[0].As = append(super.Pols[0].As, gent{vh.Hex(r.Bytes(5)), "3"})
+	}
+	disjoint := gma{Pols: []gpol{{Pol: vh.Hex(r.Bytes(28)), As: []gent{{"01", "1"}, {"02", "-2"}}}}}
+	all := []gma{nz(super), nz(variant(r, g)), disjoint, {Pols: []gpol{}}, nz(genMA(r, 3, 3)), {Nil: true}}
+	// three of them, rotated so that every construction (decoded / Add / literal) meets every relation
+	k := r.Intn(len(all))
+	return []gma{all[k], all[(k+1+r.Intn(2))%len(all)], all[(k+3+r.Intn(2))%len(all)]}
+}
+
 func genWidth(r *vh.Rng, w string) gma {
 	g := genMA(r, 2, 2)
 	var pool []*big.Int
@@ -936,7 +1053,8 @@ func corpus() []scen {
 		{Kind: "w", W: "I64", A: one(p1, "01", "5"), B: one(p2, "01", "-7"), Note: "in range"},
 		{Kind: "seq", Xs: []gma{one(p1, "01", "5"), one(p1, "01", "7")}, Progs: []prog{{-1, []int{0, 1}}, {-1, []int{1, 0}}}, Note: "0+a+b vs 0+b+a on shared objects"},
 		{Kind: "seq", Xs: []gma{one(p1, "02", "1"), one(p1, "01", "7"), one(p1, "01", "100")}, Progs: []prog{{0, []int{1, 2}}, {-1, []int{1, 2}}, {-1, []int{0, 4}}, {-2, []int{2, 1, 0}}}, Note: "(a+b)+c vs a+(b+c), b and c share an asset a lacks"},
-		{Kind: "dec", Dec: "a0", Note: "empty"},
+		{Kind: "dec", Dec: "a0", Note: "empty", Dirty: []gma{one(p1, "01", "5"), one(p2, "02", "6"), empty}},
+		{Kind: "dec", Dec: "a1581c" + p1 + "a1410105", Note: "canonical", Dirty: []gma{one(p2, "01", "5"), gma{Pols: []gpol{{p1, []gent{{"01", "1"}, {"02", "2"}}}, {p2, []gent{{"01", "3"}}}}}, one(p1, "02", "9")}},
 		{Kind: "dec", Dec: "f6", Note: "null"},
 		{Kind: "dec", Dec: "bfff", Note: "indef-empty"},
 		{Kind: "dec", Dec: "a1581c" + p1 + "a2410101410100", Note: "dup-name"},
@@ -1125,7 +1243,7 @@ func (e *env) runScen(s scen) {
 }
 
 func run(c *vh.Ctx) error {
-	c.Res.Rule = "triples (a,b,c) of maps with <=4 policies x <=4 names from pools built to collide and to exercise key order (names of length 0,1,2,23,24,32; policies differing in first/last byte), quantities from {0,+-1,..,2^32,+-2^63(+-1),+-2^64(+-1),+-2^70,+-2^128,random}; nil maps, empty policies; b is with probability 1/2 a variant of a (zero entries added/dropped, reordered, one quantity changed, entry renamed keeping sizes); decode inputs are encodings re-formed (non-minimal/indefinite headers, chunked strings), with duplicate keys, bignum/null quantities, short/long policy keys, null inner maps, and a rejected class; distinct by canonical JSON of the triple / hex of the input; non-trivial = both operands have a non-zero entry (algebra) or the input decodes (decode); op sequences: 2-4 operand OBJECTS with overlapping keys built once and shared by 4-8 accumulator programs (permutations from the empty / nil value, (a+b)+c vs a+(b+c) through an earlier result used as operand, an operand added twice), checked after every step"
+	c.Res.Rule = "triples (a,b,c) of maps with <=4 policies x <=4 names from pools built to collide and to exercise key order (names of length 0,1,2,23,24,32; policies differing in first/last byte), quantities from {0,+-1,..,2^32,+-2^63(+-1),+-2^64(+-1),+-2^70,+-2^128,random}; nil maps, empty policies; b is with probability 1/2 a variant of a (zero entries added/dropped, reordered, one quantity changed, entry renamed keeping sizes); decode inputs are encodings re-formed (non-minimal/indefinite headers, chunked strings), with duplicate keys, bignum/null quantities, short/long policy keys, null inner maps, and a rejected class; distinct by canonical JSON of the triple / hex of the input; non-trivial = both operands have a non-zero entry (algebra) or the input decodes (decode); op sequences: 2-4 operand OBJECTS with overlapping keys built once and shared by 4-8 accumulator programs (permutations from the empty / nil value, (a+b)+c vs a+(b+c) through an earlier result used as operand, an operand added twice), checked after every step; every decode input (and every encoding in the algebra scenarios) is decoded into a fresh value AND into 3-4 receivers that already hold data (decoded earlier / NewMultiAsset+Add / literal / Add-sequence accumulator; superset, overlapping, disjoint, empty, nil relative to the decoded value)"
 	c.Res.Modelled = []string{
 		"Go maps are association lists with distinct keys in arbitrary order; theorems quantify over all orders",
 		"byte level CBOR parsing is not part of this model: the decoder model works on the syntax tree (coq/Lib/Cbor.v item) that the harness obtains with its own parser from the bytes given to UnmarshalCBOR; the encoder model produces an item whose Lib.Cbor.enc bytes are compared with cbor.Encode",
@@ -1177,7 +1295,7 @@ func run(c *vh.Ctx) error {
 	for i := 0; i < c.Pick(260, 4000); i++ {
 		g := genMA(r, 1+r.Intn(4), 1+r.Intn(4))
 		h, note := genDec(r, g)
-		e.runScen(scen{Kind: "dec", Dec: h, Note: note})
+		e.runScen(scen{Kind: "dec", Dec: h, Note: note, Dirty: genDirty(r, g)})
 	}
 	for i := 0; i < c.Pick(60, 800); i++ {
 		e.runScen(genSeq(r))
